@@ -380,3 +380,15 @@ def r6(ctx):
 def r7(ctx):
     from .c05 import _check
     _check(ctx, "recv_frame", "idle", lambda kind, name: kind == "accept")
+
+
+@rule("R-C02-8", min_instances=20, title="unmasking arithmetic folded on constants (the receive path unmasks with the same routine the send path masks with): lengths 0..23 and the 125/126, 65535/65536 regions equal cyclic XOR")
+def r8(ctx):
+    from .c01 import r9 as mask_on_constants
+    mask_on_constants(ctx)
+
+
+@rule("R-C02-9", min_instances=2, title="a frame that validation refuses has still been consumed exactly: the reader is reset, so the following frame is parsed from its true start")
+def r9(ctx):
+    from .c17 import r6 as rejected_frame_consumed
+    rejected_frame_consumed(ctx)
